@@ -438,7 +438,7 @@ def iso2022JpFam : Fam where
   rank := isoRank
   need := fun k _ _ => needBmp k
   pendNeed := fun k => needBmp k
-  eofNeed := fun _ => 0
+  eofNeed := fun k => needBmp k   -- after the repair of finding F7 the end-of-stream block checks for room
   pend_rank := by
     intro s o s' h
     obtain ⟨ds, os, l, f, p⟩ := s
